@@ -1,7 +1,9 @@
 package vc
 
 import (
+	"fmt"
 	"go/types"
+	"os"
 	"strings"
 
 	"govc/internal/spec"
@@ -9,79 +11,198 @@ import (
 	"golang.org/x/tools/go/ssa"
 )
 
-type modResult struct {
-	mods map[string]bool
-	all  bool
+// effects is the write-effect summary of a function or of one call:
+// heap components / ghost variables that may change wherever they are
+// (comps), plus "writes through" effects attached to a pointer/slice/map
+// value (the i-th parameter in a summary, an argument value at a call).
+// A write into memory the function allocated itself is no effect for its
+// callers (their pre-existing heap is untouched); it is, of course, an effect
+// inside the function itself, so the exemption is applied only when a call's
+// effects are folded into the summary of the enclosing function.
+type effects struct {
+	comps  map[string]bool
+	params map[int]bool // summaries: parameters written through
+	all    bool
 }
 
-var modCache = map[*ssa.Function]*modResult{}
-var modVisiting = map[*ssa.Function]bool{}
+type callEffects struct {
+	comps   map[string]bool
+	written []ssa.Value // argument values whose pointee may be written
+	all     bool
+}
 
-// ModSet computes (an over-approximation of) the heap components and ghost
-// variables a function with a body may write, transitively.
-func (p *Program) ModSet(u *Universe, fn *ssa.Function) (map[string]bool, bool) {
-	if r, ok := modCache[fn]; ok {
-		return copySet(r.mods), r.all
+var sumCache = map[*ssa.Function]*effects{}
+var sumVisiting = map[*ssa.Function]bool{}
+
+// rootValue walks an address/slice expression to the value it is derived from.
+func rootValue(v ssa.Value) ssa.Value {
+	for i := 0; i < 32; i++ {
+		switch x := v.(type) {
+		case *ssa.Slice:
+			v = x.X
+		case *ssa.IndexAddr:
+			v = x.X
+		case *ssa.FieldAddr:
+			v = x.X
+		case *ssa.ChangeType:
+			v = x.X
+		case *ssa.Convert:
+			if _, ok := types.Unalias(x.Type()).Underlying().(*types.Pointer); !ok {
+				return v
+			}
+			v = x.X
+		default:
+			return v
+		}
 	}
-	if modVisiting[fn] {
-		return map[string]bool{}, false
+	return v
+}
+
+// freshRoot: the addressed memory was allocated by the current function on
+// every path (Alloc / MakeSlice / nil, through slicing, indexing, field
+// selection, append results and phis of such values).
+func freshRoot(v ssa.Value) bool {
+	return isFresh(v, map[ssa.Value]bool{})
+}
+
+func isFresh(v ssa.Value, seen map[ssa.Value]bool) bool {
+	if seen[v] {
+		return true // cycle through a phi: decided by the other edges
 	}
-	modVisiting[fn] = true
-	defer delete(modVisiting, fn)
-	res := &modResult{mods: map[string]bool{}}
-	for _, b := range fn.Blocks {
-		for _, in := range b.Instrs {
-			switch x := in.(type) {
-			case *ssa.Store:
-				storeModsU(u, x.Addr, res.mods)
-			case *ssa.MapUpdate:
-				mt := types.Unalias(x.Map.Type()).Underlying().(*types.Map)
-				d, v := u.MapComps(mt)
-				res.mods[d], res.mods[v] = true, true
-			case *ssa.Alloc:
-				res.mods[TopKey] = true
-				typeCompsU(u, deref(x.Type()), res.mods)
-			case *ssa.MakeSlice:
-				res.mods[TopKey] = true
-				res.mods[u.ElemComp(types.Unalias(x.Type()).Underlying().(*types.Slice).Elem())] = true
-			case *ssa.MakeMap:
-				res.mods[TopKey] = true
-				d, v := u.MapComps(types.Unalias(x.Type()).Underlying().(*types.Map))
-				res.mods[d], res.mods[v] = true, true
-			case *ssa.MakeInterface:
-				res.mods[TopKey] = true
-				res.mods[u.BoxComp(x.X.Type())] = true
-			case *ssa.MakeChan:
-				res.mods[TopKey] = true
-			case *ssa.Convert:
-				if st, ok := types.Unalias(x.Type()).Underlying().(*types.Slice); ok {
-					res.mods[TopKey] = true
-					res.mods[u.ElemComp(st.Elem())] = true
-				}
-			case ssa.CallInstruction:
-				m, all := p.callMods(u, x.Common(), fn)
-				if all {
-					res.all = true
-				}
-				for k := range m {
-					res.mods[k] = true
-				}
-			case *ssa.MakeClosure:
-				// the closure may run later in this function or in a callee
-				m, all := p.ModSet(u, x.Fn.(*ssa.Function))
-				if all {
-					res.all = true
-				}
-				for k := range m {
-					res.mods[k] = true
-				}
+	seen[v] = true
+	switch x := v.(type) {
+	case *ssa.Alloc, *ssa.MakeSlice, *ssa.MakeMap:
+		return true
+	case *ssa.Const:
+		return x.Value == nil // nil slice / pointer: no memory
+	case *ssa.Slice:
+		return isFresh(x.X, seen)
+	case *ssa.IndexAddr:
+		return isFresh(x.X, seen)
+	case *ssa.FieldAddr:
+		return isFresh(x.X, seen)
+	case *ssa.ChangeType:
+		return isFresh(x.X, seen)
+	case *ssa.Convert:
+		if _, ok := types.Unalias(x.Type()).Underlying().(*types.Pointer); !ok {
+			_, isSlice := types.Unalias(x.Type()).Underlying().(*types.Slice)
+			return isSlice // []byte(string) allocates
+		}
+		return isFresh(x.X, seen)
+	case *ssa.Phi:
+		for _, e := range x.Edges {
+			if !isFresh(e, seen) {
+				return false
+			}
+		}
+		return true
+	case *ssa.Call:
+		if b, ok := x.Call.Value.(*ssa.Builtin); ok && b.Name() == "append" {
+			return isFresh(x.Call.Args[0], seen)
+		}
+	}
+	return false
+}
+
+func paramIndex(fn *ssa.Function, v ssa.Value) int {
+	if p, ok := rootValue(v).(*ssa.Parameter); ok {
+		for i, q := range fn.Params {
+			if q == p {
+				return i
 			}
 		}
 	}
-	if len(modVisiting) == 1 {
-		modCache[fn] = res
+	return -1
+}
+
+// summary computes the effect summary of a function with a body.
+func (p *Program) summary(u *Universe, fn *ssa.Function) *effects {
+	if e, ok := sumCache[fn]; ok {
+		return e
 	}
-	return copySet(res.mods), res.all
+	if sumVisiting[fn] {
+		return &effects{comps: map[string]bool{}, params: map[int]bool{}}
+	}
+	sumVisiting[fn] = true
+	defer delete(sumVisiting, fn)
+	e := &effects{comps: map[string]bool{}, params: map[int]bool{}}
+	writeThrough := func(v ssa.Value) {
+		if freshRoot(v) {
+			return
+		}
+		if i := paramIndex(fn, v); i >= 0 {
+			e.params[i] = true
+			return
+		}
+		argModsU(u, v, e.comps)
+	}
+	dbg := os.Getenv("GOVC_DEBUG_MOD")
+	for _, b := range fn.Blocks {
+		for _, in := range b.Instrs {
+			before := dbg != "" && e.comps[dbg]
+			_ = before
+			switch x := in.(type) {
+			case *ssa.Store:
+				if freshRoot(x.Addr) {
+					continue
+				}
+				if i := paramIndex(fn, x.Addr); i >= 0 {
+					e.params[i] = true
+					continue
+				}
+				storeModsU(u, x.Addr, e.comps)
+			case *ssa.MapUpdate:
+				writeThrough(x.Map)
+			case *ssa.Alloc, *ssa.MakeSlice, *ssa.MakeMap, *ssa.MakeInterface, *ssa.MakeChan:
+				e.comps[TopKey] = true
+			case *ssa.Convert:
+				if _, ok := types.Unalias(x.Type()).Underlying().(*types.Slice); ok {
+					e.comps[TopKey] = true
+				}
+			case ssa.CallInstruction:
+				ce := p.callEffects(u, x.Common(), fn)
+				if ce.all {
+					e.all = true
+				}
+				for k := range ce.comps {
+					e.comps[k] = true
+				}
+				for _, w := range ce.written {
+					writeThrough(w)
+				}
+			case *ssa.MakeClosure:
+				// the closure may run later in this function or in a callee
+				ce := p.summary(u, x.Fn.(*ssa.Function))
+				if ce.all {
+					e.all = true
+				}
+				for k := range ce.comps {
+					e.comps[k] = true
+				}
+			}
+			if dbg != "" && !before && e.comps[dbg] {
+				fmt.Fprintf(os.Stderr, "MODDEBUG   first added by: %s  [%s]\n", in.String(), fn.Name())
+			}
+		}
+	}
+	if dbg := os.Getenv("GOVC_DEBUG_MOD"); dbg != "" && e.comps[dbg] {
+		fmt.Fprintf(os.Stderr, "MODDEBUG %s has %s\n", fn.String(), dbg)
+	}
+	if len(sumVisiting) == 1 {
+		sumCache[fn] = e
+	}
+	return e
+}
+
+// ModSet: components a call to fn may change as seen by an arbitrary caller
+// (parameter write-throughs resolved by parameter type).
+func (p *Program) ModSet(u *Universe, fn *ssa.Function) (map[string]bool, bool) {
+	e := p.summary(u, fn)
+	m := copySet(e.comps)
+	for i := range e.params {
+		argModsU(u, fn.Params[i], m)
+	}
+	return m, e.all
 }
 
 func copySet(m map[string]bool) map[string]bool {
@@ -92,20 +213,21 @@ func copySet(m map[string]bool) map[string]bool {
 	return o
 }
 
-func (p *Program) contractModsStatic(u *Universe, con *spec.FuncContract) (map[string]bool, bool, bool) {
+// contractComps resolves the non-parameter part of a contract's frame.
+// ok=false: the contract says nothing (use the body's summary if there is one).
+func (p *Program) contractComps(u *Universe, con *spec.FuncContract) (comps map[string]bool, all bool, ok bool) {
 	if con.Pure {
 		return map[string]bool{}, false, true
 	}
-	if !con.HasMod {
+	if !con.HasMod && !con.HasWrites {
 		return nil, false, false
 	}
-	g := &Gen{prog: p, u: u, shared: &shared{declared: map[string]bool{}, ordinals: map[string]int{}}}
-	mods := map[string]bool{TopKey: true}
-	all := false
+	g := &Gen{prog: p, u: u, shared: &shared{declared: map[string]bool{}, ordinals: map[string]int{}, usedClauses: map[string]bool{}}}
+	comps = map[string]bool{TopKey: true}
 	func() {
 		defer func() {
 			if r := recover(); r != nil {
-				if _, ok := r.(genError); ok {
+				if _, isGen := r.(genError); isGen {
 					all = true
 					return
 				}
@@ -119,81 +241,117 @@ func (p *Program) contractModsStatic(u *Universe, con *spec.FuncContract) (map[s
 				all = true
 			case m == "nothing":
 			case strings.HasPrefix(m, "@"):
-				e, err := spec.ParseExpr(m)
+				if con.HasWrites {
+					continue // heap effects come from the writes list
+				}
+				ex, err := spec.ParseExpr(m)
 				if err != nil {
 					all = true
 					continue
 				}
-				mods[g.heapRefKey(env, e.(*spec.HeapRef))] = true
+				comps[g.heapRefKey(env, ex.(*spec.HeapRef))] = true
 			default:
-				if srt, ok := p.Specs.Ghosts[m]; ok {
-					mods[u.GhostComp(m, srt)] = true
+				if srt, isGhost := p.Specs.Ghosts[m]; isGhost {
+					comps[u.GhostComp(m, srt)] = true
 				} else {
 					all = true
 				}
 			}
 		}
 	}()
-	return mods, all, true
+	return comps, all, true
 }
 
-// callMods: components a call may write.
-func (p *Program) callMods(u *Universe, c *ssa.CallCommon, caller *ssa.Function) (map[string]bool, bool) {
-	mods := map[string]bool{}
-	argBased := func(args []ssa.Value) {
-		mods[TopKey] = true
-		for _, a := range args {
-			argModsU(u, a, mods)
+// contractEffects: effects of a call governed by contract con (args include
+// the receiver for methods / interface methods). fn is the callee when static.
+func (p *Program) contractEffects(u *Universe, con *spec.FuncContract, fn *ssa.Function, args []ssa.Value) *callEffects {
+	ce := &callEffects{comps: map[string]bool{TopKey: true}}
+	comps, all, ok := p.contractComps(u, con)
+	if ok {
+		for k := range comps {
+			ce.comps[k] = true
 		}
-	}
-	closureMods := func(m map[string]bool) (map[string]bool, bool) {
-		for _, a := range c.Args {
-			if mc, ok := a.(*ssa.MakeClosure); ok {
-				cm, all := p.ModSet(u, mc.Fn.(*ssa.Function))
-				if all {
-					return m, true
-				}
-				for k := range cm {
-					m[k] = true
+		ce.all = all
+		if con.HasWrites {
+			for _, w := range con.Writes {
+				for i, pn := range con.Params {
+					if pn == w && i < len(args) {
+						ce.written = append(ce.written, args[i])
+					}
 				}
 			}
 		}
-		return m, false
+	} else if fn != nil && len(fn.Blocks) > 0 && !con.Trusted {
+		e := p.summary(u, fn)
+		for k := range e.comps {
+			ce.comps[k] = true
+		}
+		ce.all = e.all
+		for i := range e.params {
+			if i < len(args) {
+				ce.written = append(ce.written, args[i])
+			}
+		}
+	}
+	if !con.Pure {
+		p.closureArgEffects(u, args, ce)
+	}
+	return ce
+}
+
+// closure literals passed as arguments may be run by the callee
+func (p *Program) closureArgEffects(u *Universe, args []ssa.Value, ce *callEffects) {
+	for _, a := range args {
+		if mc, ok := a.(*ssa.MakeClosure); ok {
+			e := p.summary(u, mc.Fn.(*ssa.Function))
+			if e.all {
+				ce.all = true
+			}
+			for k := range e.comps {
+				ce.comps[k] = true
+			}
+		}
+	}
+}
+
+// callEffects: effects of one call instruction.
+func (p *Program) callEffects(u *Universe, c *ssa.CallCommon, caller *ssa.Function) *callEffects {
+	ce := &callEffects{comps: map[string]bool{}}
+	pointerArgs := func(args []ssa.Value) {
+		ce.comps[TopKey] = true
+		for _, a := range args {
+			switch types.Unalias(a.Type()).Underlying().(type) {
+			case *types.Slice, *types.Pointer, *types.Map:
+				ce.written = append(ce.written, a)
+			}
+		}
 	}
 	if c.IsInvoke() {
+		args := append([]ssa.Value{c.Value}, c.Args...)
 		if con := p.IfaceContract(c.Method); con != nil {
-			if m, all, ok := p.contractModsStatic(u, con); ok {
-				if all || con.Pure {
-					return m, all
-				}
-				return closureMods(m)
-			}
-			return closureMods(map[string]bool{TopKey: true})
+			return p.contractEffects(u, con, nil, args)
 		}
-		argBased(append([]ssa.Value{c.Value}, c.Args...))
-		return mods, false
+		pointerArgs(c.Args)
+		p.closureArgEffects(u, c.Args, ce)
+		return ce
 	}
 	var fn *ssa.Function
 	switch x := c.Value.(type) {
 	case *ssa.Builtin:
 		switch x.Name() {
 		case "append", "copy":
-			if st, ok := types.Unalias(c.Args[0].Type()).Underlying().(*types.Slice); ok {
-				mods[u.ElemComp(st.Elem())] = true
-				mods[TopKey] = true
-			}
+			ce.comps[TopKey] = true
+			ce.written = append(ce.written, c.Args[0])
 		case "delete":
-			mt := types.Unalias(c.Args[0].Type()).Underlying().(*types.Map)
-			d, v := u.MapComps(mt)
-			mods[d], mods[v] = true, true
+			ce.written = append(ce.written, c.Args[0])
 		}
-		return mods, false
+		return ce
 	case *ssa.Function:
 		fn = x
 	case *ssa.MakeClosure:
 		fn = x.Fn.(*ssa.Function)
 	default:
-		// dynamic call: parameter contract or argument-reachable memory
+		// dynamic call: parameter / field contract, else argument-reachable memory
 		if caller != nil {
 			name := ""
 			switch y := c.Value.(type) {
@@ -203,40 +361,69 @@ func (p *Program) callMods(u *Universe, c *ssa.CallCommon, caller *ssa.Function)
 				if fv, ok := y.X.(*ssa.FreeVar); ok {
 					name = fv.Name()
 				}
+				if fa, ok := y.X.(*ssa.FieldAddr); ok {
+					if n := namedOf(deref(fa.X.Type())); n != nil && n.Obj().Pkg() != nil {
+						si := u.StructOf(deref(fa.X.Type()))
+						if con := p.Specs.Contracts[n.Obj().Pkg().Path()+"::field "+n.Obj().Name()+"."+si.Fields[fa.Field].Name]; con != nil {
+							return p.contractEffects(u, con, nil, c.Args)
+						}
+					}
+				}
+			case *ssa.Field:
+				if n := namedOf(y.X.Type()); n != nil && n.Obj().Pkg() != nil {
+					si := u.StructOf(y.X.Type())
+					if con := p.Specs.Contracts[n.Obj().Pkg().Path()+"::field "+n.Obj().Name()+"."+si.Fields[y.Field].Name]; con != nil {
+						return p.contractEffects(u, con, nil, c.Args)
+					}
+				}
 			}
 			if name != "" {
 				if con := p.Specs.Contracts[FuncKey(caller)+"@"+name]; con != nil {
-					if m, all, ok := p.contractModsStatic(u, con); ok {
-						return m, all
-					}
-					return map[string]bool{TopKey: true}, false
+					return p.contractEffects(u, con, nil, c.Args)
 				}
 			}
 		}
-		argBased(c.Args)
-		return mods, false
+		pointerArgs(c.Args)
+		return ce
 	}
 	if isModelled(fn) {
-		argBased(c.Args)
-		return mods, false
+		pointerArgs(c.Args)
+		return ce
 	}
 	if con := p.ContractFor(fn); con != nil {
-		if m, all, ok := p.contractModsStatic(u, con); ok {
-			return m, all
-		}
-		if len(fn.Blocks) > 0 && !con.Trusted {
-			m, all := p.ModSet(u, fn)
-			m[TopKey] = true
-			return m, all
-		}
-		return map[string]bool{TopKey: true}, false
+		return p.contractEffects(u, con, fn, c.Args)
 	}
 	if len(fn.Blocks) > 0 {
-		m, all := p.ModSet(u, fn)
-		return m, all
+		e := p.summary(u, fn)
+		for k := range e.comps {
+			ce.comps[k] = true
+		}
+		ce.all = e.all
+		for i := range e.params {
+			if i < len(c.Args) {
+				ce.written = append(ce.written, c.Args[i])
+			}
+		}
+		p.closureArgEffects(u, c.Args, ce)
+		return ce
 	}
-	argBased(c.Args)
-	return mods, false
+	pointerArgs(c.Args)
+	return ce
+}
+
+// resolve turns call effects into the set of components to havoc at a call
+// site inside the function under verification (no freshness exemption there).
+func (ce *callEffects) resolve(u *Universe) (map[string]bool, bool) {
+	m := copySet(ce.comps)
+	for _, w := range ce.written {
+		argModsU(u, w, m)
+	}
+	return m, ce.all
+}
+
+// callMods: components a call may write, as seen inside the calling function.
+func (p *Program) callMods(u *Universe, c *ssa.CallCommon, caller *ssa.Function) (map[string]bool, bool) {
+	return p.callEffects(u, c, caller).resolve(u)
 }
 
 func typeCompsU(u *Universe, t types.Type, mods map[string]bool) {
@@ -392,3 +579,4 @@ func (p *Program) mutableGlobals() map[string]bool {
 	}
 	return mutGlobals
 }
+
